@@ -45,12 +45,11 @@ Section QMachine.
     let s' := fst (step updq s e) in
     exists pv, prev_of s e = Some pv
       /\ d = update_next_Q (per (s_rnd s')) (s_now s') pv
-      /\ s_next s' = Some d /\ s_rnd s' = s_rnd s
-      /\ (match e with EStart (Some t) => s_now s' = t | _ => s_now s' = s_now s end).
+      /\ s_next s' = Some d /\ s_rnd s' = s_rnd s.
   Proof.
     destruct e as [t|r|sk| | |k| ]; simpl; try (intros []; fail).
     - intros [E|[]]. inversion E; subst. exists (s_now s).
-      repeat split; auto. destruct sk; reflexivity.
+      repeat split; auto.
     - intro Hin. exfalso. eapply do_stop_no_sched. exact Hin.
     - destruct (s_pending s) as [|[h' d'] rest]; simpl; [intros []|intros [E|[]]; discriminate].
     - destruct (s_armed s) as [|a]; simpl; [intros []|].
@@ -70,6 +69,11 @@ Section QMachine.
         apply in_app_or in Hin as [Hin|[E|Hin]]; [contradiction|discriminate|].
         destruct (Hs Hin) as (_ & _ & _ & _ & _ & _ & _ & Hr2). congruence.
       + intros [E|[]]; discriminate.
+      + match goal with |- context [schedule_next _ ?x] =>
+          pose proof (schedule_next_Q x h d) as Hs; destruct (schedule_next updq x) as [s2 o] end.
+        simpl in *. intros [E|[E|Hin]]; try discriminate.
+        destruct (Hs Hin) as (nx & E1 & E2 & E3 & E4 & E5 & _).
+        exists nx. rewrite E4, E5. repeat split; auto.
     - destruct (s_inflight s) as [|n]; simpl; [intros []|].
       match goal with |- context [schedule_next _ ?x] =>
         pose proof (schedule_next_Q x h d) as Hs; destruct (schedule_next updq x) as [s2 o] end.
@@ -190,9 +194,9 @@ Section QRuns.
     let ds := deadlines (snd (step updq s e)) in
     (ds = [] /\ s_next s' = s_next s)
     \/ (exists nx, s_next s = Some nx /\ s_running s = true /\
-          ds = [update_next_Q (per (s_rnd s)) (s_now s) nx] /\
-          s_next s' = Some (update_next_Q (per (s_rnd s)) (s_now s) nx) /\
-          s_now s' = s_now s /\ s_rnd s' = s_rnd s).
+          ds = [update_next_Q (per (s_rnd s)) (s_now s') nx] /\
+          s_next s' = Some (update_next_Q (per (s_rnd s)) (s_now s') nx) /\
+          s_rnd s' = s_rnd s).
   Proof.
     intro He. destruct e as [t|r|sk| | |k| ]; try discriminate; cbn zeta.
     - left. simpl. auto.
@@ -216,6 +220,11 @@ Section QRuns.
         * left. subst s3. rewrite deadlines_app. simpl. rewrite D1, H1. auto.
         * congruence.
       + left. simpl. auto.
+      + match goal with |- context [schedule_next _ ?x] =>
+          destruct (sn_cases x) as [(H1 & H2)|(nx & h & H1 & H2 & H3 & H4)];
+          destruct (schedule_next updq x) as [s2 o] end; simpl in *.
+        * left. subst s2. simpl. auto.
+        * right. exists nx. subst s2. simpl. repeat split; auto.
     - simpl. destruct (s_inflight s) as [|n]; [left; simpl; auto|].
       match goal with |- context [schedule_next _ ?x] =>
         destruct (sn_cases x) as [(H1 & H2)|(nx & h & H1 & H2 & H3 & H4)];
@@ -231,7 +240,7 @@ Section QRuns.
     - unfold do_stop. destruct (s_timeout s); reflexivity.
     - destruct (s_pending s) as [|[h d] rest]; reflexivity.
     - destruct (s_armed s) as [|a]; [reflexivity|].
-      destruct (s_running s) eqn:Er; [|reflexivity]. simpl. destruct k; [| |reflexivity].
+      destruct (s_running s) eqn:Er; [|reflexivity]. simpl. destruct k; [| |reflexivity|].
       + match goal with |- context [schedule_next _ ?x] =>
           destruct (sn_cases x) as [(H1 & H2)|(nx & h & H1 & H2 & H3 & H4)];
           destruct (schedule_next updq x) as [s2 o] end; simpl in *; subst s2; reflexivity.
@@ -241,6 +250,9 @@ Section QRuns.
         match goal with |- context [schedule_next _ ?x] =>
           destruct (sn_cases x) as [(H1 & H2)|(nx & h & H1 & H2 & H3 & H4)];
           destruct (schedule_next updq x) as [s3 o2] end; simpl in *; [subst s3; exact D4|congruence].
+      + match goal with |- context [schedule_next _ ?x] =>
+          destruct (sn_cases x) as [(H1 & H2)|(nx & h & H1 & H2 & H3 & H4)];
+          destruct (schedule_next updq x) as [s2 o] end; simpl in *; subst s2; reflexivity.
     - destruct (s_inflight s) as [|n]; [reflexivity|].
       match goal with |- context [schedule_next _ ?x] =>
         destruct (sn_cases x) as [(H1 & H2)|(nx & h & H1 & H2 & H3 & H4)];
@@ -300,7 +312,7 @@ Section QRuns.
     destruct (step_cases s e H1) as [(E1 & E2)|(nx & E1 & _ & E2 & E3 & _)]; cbn zeta in *.
     - rewrite E1 in Hin. simpl in Hin. eapply IH; [exact H2| |exact Hin].
       unfold grid_inv. rewrite E2. exact Hg.
-    - assert (Hd : on_grid o (ct / 1000) (update_next_Q (per (s_rnd s)) (s_now s) nx)).
+    - assert (Hd : on_grid o (ct / 1000) (update_next_Q (per (s_rnd s)) (s_now (fst (step updq s e))) nx)).
       { rewrite Hper. apply update_on_grid; [exact Hp|]. unfold grid_inv in Hg. rewrite E1 in Hg. exact Hg. }
       rewrite E2 in Hin. simpl in Hin. destruct Hin as [E|Hin].
       + subst d. exact Hd.
